@@ -14,6 +14,7 @@ package interp
 
 import (
 	"go/types"
+	"sort"
 	"strings"
 
 	"golang.org/x/tools/go/ssa"
@@ -117,6 +118,29 @@ func registerCutStubs(sh *Shared) {
 	reg(mainPath+".loopVarInt", func(fr *frame, args []value) value { return get(fr, args[0].(string), types.Int) })
 	reg(mainPath+".loopVarU64", func(fr *frame, args []value) value { return get(fr, args[0].(string), types.Uint64) })
 	reg(mainPath+".loopVarI64", func(fr *frame, args []value) value { return get(fr, args[0].(string), types.Int64) })
+	// loopFrameValue(typ): the first value in the frame of the cut loop whose type prints as typ
+	// (lets the harness reach heap objects the loop carries, e.g. the stream findBug reuses)
+	reg(mainPath+".loopFrameValue", func(fr *frame, args []value) value {
+		c := fr.i.cut
+		if c == nil || c.frame == nil {
+			fr.i.ex.unsupported("loopFrameValue outside a cut loop")
+		}
+		want := args[0].(string)
+		var names []string
+		byName := map[string]ssa.Value{}
+		for k := range c.frame.env {
+			if k.Type().String() == want {
+				names = append(names, k.Name())
+				byName[k.Name()] = k
+			}
+		}
+		if len(names) == 0 {
+			fr.i.ex.unsupported("no value of type %s in the cut frame", want)
+		}
+		sort.Strings(names)
+		k := byName[names[0]]
+		return iface{t: k.Type(), v: c.frame.env[k]}
+	})
 	reg(mainPath+".cutActive", func(fr *frame, args []value) value { return fr.i.ex.concrete == nil })
 	reg(mainPath+".inCut", func(fr *frame, args []value) value { return fr.i.cut != nil && fr.i.cut.entered })
 }
